@@ -1,0 +1,22 @@
+//go:build verif
+
+package types
+
+// Contracts checked by /verif/govc (contract-based deductive verification).
+// Comment-only: with the `verif` tag off this file is not even parsed.
+
+//@ func PrefixEndBytes
+//@   props C02
+//@   panics_never
+//@   modifies nothing
+//@   ensures [nil-if-allff] result == nil ==> (forall i int :: 0 <= i && i < len(prefix) ==> prefix[i] == 255)
+//@   ensures [nonnil-witness] result != nil ==> prefix[len(result)-1] != 255
+//@   ensures [len] result != nil ==> 1 <= len(result) && len(result) <= len(prefix)
+//@   ensures [head] result != nil ==> forall i int :: 0 <= i && i < len(result)-1 ==> result[i] == old(prefix[i])
+//@   ensures [last] result != nil ==> result[len(result)-1] == old(prefix[len(result)-1]) + 1
+//@   ensures [tail-ff] result != nil ==> forall i int :: len(result) <= i && i < len(prefix) ==> prefix[i] == 255
+//@   ensures [fresh] result != nil ==> fresh(result)
+//@   loop 0 invariant 1 <= len(end) && len(end) <= len(prefix) && off(end) == 0 && fresh(end) && end != nil
+//@   loop 0 invariant forall i int :: 0 <= i && i < len(end) ==> end[i] == prefix[i]
+//@   loop 0 invariant forall i int :: len(end) <= i && i < len(prefix) ==> prefix[i] == 255
+//@   loop 0 decreases len(end)
